@@ -152,13 +152,15 @@ def as_model(r, numpoly):
        note="bounded: 28 representative operations (construct, combine, differentiate, evaluate, index, align, (un)pickle ...) "
             "under random settings of the 8 boolean options and 2 display strings; oracle = same operation under default options; "
             "plus 10 ordering-based functions (argmax, amax, sortable_proxy, lead_*, maximum, > ...) whose oracle is the same call "
-            "with the same SORT options and every other option at its default")
+            "with the same SORT and RETAIN options and every other option at its default")
 def options_invariance(inp):
     import numpoly
     install_poison()
     defaults = numpoly.get_options(defaults=True)
     if inp["op"] in ORDER_OPS:
-        defaults = dict(defaults, sort_graded=inp["opts"]["sort_graded"], sort_reverse=inp["opts"]["sort_reverse"])
+        # the sort options decide the order, the retain options which indeterminates (hence how many exponent columns) there
+        # are: both are taken over into the reference run; what must not matter is every display option and the name suffix
+        defaults = dict(defaults, **{k: inp["opts"][k] for k in ("sort_graded", "sort_reverse", "retain_names", "retain_coefficients")})
     with numpoly.global_options(**defaults):
         a0, b0 = operand({"poly": inp["a"]}), operand({"poly": inp["b"]})
         try:
